@@ -340,8 +340,9 @@ class _Info:
     """EntityInfo stand-in"""
 
 
-def actual(tag, view_of=None, incompatible=False):
+def actual(tag, view_of=None, incompatible=False, width=4):
     o = SObj(Signal, f_tag=tag, _default="DEFAULT-" + tag, _ref_spec=[] if view_of is None else ["slice"], f_incompatible=incompatible)
+    o.fields["width"] = width  # vector-typed object; scalar objects (Bit, bool, enum) have no width (None stands for the AttributeError)
     o.fields["_root"] = view_of if view_of is not None else o
     return o
 
@@ -359,12 +360,19 @@ SCENARIOS = {
     "missing-output": ([("a", False), ("y", True)], {"a": "sig"}),
     "unknown-name": ([("a", False)], {"a": "sig", "b": "sig"}),
     "incompatible-actual": ([("a", False)], {"a": "bad"}),
+    # a port association needs vectors of the SAME width: an actual that an assignment would merely extend
+    # (Unsigned[3] into Unsigned[4]) is not a legal actual
+    "narrower-vector-actual": ([("a", False), ("y", True)], {"a": "narrow", "y": "sig"}),
+    "narrower-vector-actual-on-output": ([("a", False), ("y", True)], {"a": "sig", "y": "narrow"}),
+    "scalar-ports": ([("a", False), ("y", True)], {"a": "scalar", "y": "scalar"}),
 }
 
 
 def entity_shape(formals, call):
     def make(env):
         ports = {n: SObj(_Formal, f_name=n, f_out=o, _default="DECL-DEFAULT") for n, o in formals}
+        for n, p in ports.items():
+            p.fields["width"] = None if call.get(n) == "scalar" else 4
         info = SObj(_Info, name="ent", attributes={}, extern=True, instantiated=None, ports=ports, generics={}, architecture=None)
         return SObj(CTX.Entity, _cohdl_info=info)
 
@@ -380,6 +388,10 @@ def kw_shapes(formals, call):
                 return actual(n + "-view", view_of=root)
             if how == "bad":
                 return actual(n, incompatible=True)
+            if how == "narrow":
+                return actual(n, width=3)
+            if how == "scalar":
+                return actual(n, width=None)
             return actual(n)
 
         out[n] = Built([], mk, lambda a: "<actual>", lambda a: None)
@@ -389,7 +401,7 @@ def kw_shapes(formals, call):
 def init_spec(formals, call):
     def spec(sx, self, **kwargs):
         names = [n for n, _ in formals]
-        if any(k not in names for k in call) or any(n not in call for n in names) or "bad" in call.values():
+        if any(k not in names for k in call) or any(n not in call for n in names) or "bad" in call.values() or "narrow" in call.values():
             sx.reject(AssertionError)
         real_self = sx.real_args[0]
         real_kw = sx.real_kwargs
@@ -424,9 +436,43 @@ for name, (formals, call) in SCENARIOS.items():
         continue  # passing the declaration object itself needs the object of info.ports: covered by the design-level checks of C06
     c = Case(f"connect:{name}", [entity_shape(formals, call)], init_spec(formals, call), kwargs=kw_shapes(formals, call))
     c.native = False
+    if "narrow" in call.values():
+        c.custom_replay = "contracts.c12_instances.replay_narrow_actual"
     c.may_reject = AssertionError
     c.models = [
         (CTX.Block.__dict__["__init__"], lambda it, self, *a, **k: None),
         (CTX._register_block, lambda it, blk: None),
     ]
     con.cases.append(c)
+
+_NARROW_DESIGN = '''
+from __future__ import annotations
+from cohdl import Entity, Port, Unsigned, std
+
+class LeafW(Entity):
+    u = Port.input(Unsigned[4])
+    y = Port.output(Unsigned[4])
+    def architecture(self):
+        @std.concurrent
+        def logic():
+            self.y <<= self.u
+
+class TopW(Entity):
+    i = Port.input(Unsigned[3])
+    o = Port.output(Unsigned[4])
+    def architecture(self):
+        LeafW(u=self.i, y=self.o)
+
+try:
+    std.VhdlCompiler.to_string(TopW)
+    print("ACCEPTED: 3 bit actual for a 4 bit formal")
+except AssertionError:
+    print("REJECTED")
+'''
+
+
+def replay_narrow_actual(payload):
+    from contracts.c06_extra import _run_design
+
+    rc, out = _run_design(_NARROW_DESIGN)
+    return {"reproduced": "ACCEPTED" in out, "detail": out[-200:]}
